@@ -61,7 +61,7 @@ Section Agree.
   Variable ffmt : fwidth -> Z -> bytes.
   Variable quote : bytes -> bytes.
 
-  Lemma string_agree tok s : sml_string tok s = encode_string default_opts tok s false.
+  Lemma string_agree tok s : sml_string tok s = encode_string write_strict_ascii default_opts tok s false.
   Proof.
     unfold sml_string, encode_string, quote_byte. cbn [eo_ascii_single default_opts].
     destruct s as [|c s]; [reflexivity|].
@@ -82,7 +82,7 @@ Section Agree.
   Lemma leaf_agree x : is_list x = false -> forall l l',
     to_sml_at ffmt quote l x = encode_item ffmt quote default_opts l' x.
   Proof.
-    intros NL l l'. destruct x; try discriminate; cbn [to_sml_at to_sml_leaf encode_item].
+    intros NL l l'. unfold encode_item. destruct x; try discriminate; cbn [to_sml_at to_sml_leaf encode_item_w].
     - reflexivity.
     - apply string_agree.
     - apply string_agree.
@@ -99,7 +99,7 @@ Section Agree.
   Proof.
     induction x as [|cs IH|s|s|s|bs|vs|w vs|w vs|w vs] using item_ind'; intros level;
       try (apply leaf_agree; reflexivity).
-    cbn [to_sml_at encode_item]. change (eo_indent default_opts) with [c_sp; c_sp].
+    unfold encode_item. cbn [to_sml_at encode_item_w]. fold (encode_item ffmt quote). change (eo_indent default_opts) with [c_sp; c_sp].
     destruct cs as [|c cs']; [reflexivity|].
     do 5 f_equal.
     apply flat_map_ext_Forall.
